@@ -152,6 +152,7 @@ PROPS = {
         "stubs": ["tracing, tracing-attributes: no-op stub crates via [patch.crates-io]"],
         "trusted_base": VINTERNER_TB,
         "harness_note_default": "universe compression: sorted/dense/order-preserving and invertible; symbolic universes",
+        "timeout_quick_s": 600, "timeout_thorough_s": 600,
         "level_text": "Bounded model checking (Kani/CBMC) of the real universe-map code and of the u_canonicalize / "
                       "map_from_canonical folders on placeholder leaves, universes fully symbolic. Partial: the "
                       "variable-numbering half of the property needs the inference table and is outside.",
